@@ -1,4 +1,4 @@
-        // Find the first type that does not belong to the current crate.
+        // Find a type of that name that does not belong to the current crate.
         if let Some((crate_name, ty)) = all_types
             .iter()
             .flat_map(|(k, v)| {
@@ -6,7 +6,8 @@
                     .find(|&t| t == &referenced_import.type_name && k != &data.crate_name)
                     .map(|t| (k, t))
             })
-            .next()
+            // The map has no order of its own: always settle on the same crate.
+            .min_by(|a, b| a.0.cmp(b.0))
         {
             warn!("Warning: Using {crate_name} as module for {ty} which is not in referenced crate {}", referenced_import.base_crate);
             used.entry(crate_name)
